@@ -6,6 +6,8 @@
       rules, the element loop header and the row pointer computation
   D2  JIT access width == entitled width, in the move helpers (layer 1) and in the
       load/store rules (layer 2); widths from objdump's `<SIZE> PTR` annotation
+  D2b the displacement of a memory operand is emitted as one (sign-extended) byte only where
+      it is known to lie in [-128, 127]
   D3  who may store: array stores only in store rules, through the destination pointer
   D4  executor scratch slots written by generated code form a closed set
 Region counters, strides, rep-movs counts: NOT decided.
@@ -164,6 +166,9 @@ def run(ctx):
     work = os.path.join(ctx.scratch, "w")
     os.makedirs(work, exist_ok=True)
     d2(db, rep, work)
+    # D2b: the address the instruction encodes is the address the rule asked for
+    from x86enc import check_disp8
+    check_disp8(db, rep, "D2b-DISP8-RANGE")
 
     # ---- D3 / D4 ---------------------------------------------------------------------
     d34(db, rep)
